@@ -36,6 +36,13 @@ type crashStore struct {
 	log       *os.File // optional durable BEGIN/END log (SIGKILL tier)
 	crashed   bool
 	lastOp    string
+	// crash in the middle of a run of re-writes of already stored events (the
+	// first-descendant updates of one insertion walk down every creator's chain,
+	// one write per ancestor): at the rewriteCrashAt-th re-write that directly
+	// follows another re-write
+	rewriteCrashAt   int
+	midChainRewrites int
+	prevWasRewrite   bool
 }
 
 func newCrashStore(s hg.Store) *crashStore {
@@ -45,6 +52,21 @@ func newCrashStore(s hg.Store) *crashStore {
 func (c *crashStore) point(op string, do func() error) error {
 	c.calls++
 	c.lastOp = op
+	wasRewrite := c.prevWasRewrite
+	c.prevWasRewrite = false
+	if op == "SetEvent (re-write)" {
+		c.prevWasRewrite = true
+		if wasRewrite {
+			c.midChainRewrites++
+			if c.rewriteCrashAt > 0 && c.midChainRewrites == c.rewriteCrashAt {
+				if c.after {
+					do()
+					c.die("SetEvent (after the second or later re-write of stored events in a row)")
+				}
+				c.die("SetEvent (before the second or later re-write of stored events in a row)")
+			}
+		}
+	}
 	if c.crashAt > 0 && c.calls == c.crashAt && !c.after {
 		c.die(op + " (before the write)")
 	}
@@ -78,7 +100,11 @@ func (c *crashStore) SetEvent(e *hg.Event) error {
 			c.log.Sync()
 		}
 	}
-	err := c.point("SetEvent", func() error { return c.Store.SetEvent(e) })
+	op := "SetEvent"
+	if !first {
+		op = "SetEvent (re-write)"
+	}
+	err := c.point(op, func() error { return c.Store.SetEvent(e) })
 	if err == nil && first {
 		c.completed[h] = true
 		if c.log != nil {
@@ -245,6 +271,9 @@ func runC11(cs CaseSpec) *CaseResult {
 	v.Core.Hg().Store = cst
 	cst.crashAt = int(cs.I("k", 100))
 	cst.after = cs.I("after", 0) == 1
+	if rw := cs.I("rwk", 0); rw > 0 {
+		cst.crashAt, cst.rewriteCrashAt = 0, int(rw)
+	}
 	clean := cs.I("clean", 0) == 1
 	if clean {
 		cst.crashAt = 0
@@ -298,6 +327,9 @@ func runC11(cs CaseSpec) *CaseResult {
 	}
 	res.count("crash_points_hit", 1)
 	res.count("crash_at_"+strings.Fields(crashedAt)[0], 1)
+	if strings.Contains(crashedAt, "in a row") {
+		res.count("crash_points_inside_the_run_of_ancestor_rewrites_of_one_insertion", 1)
+	}
 	// the process is gone: release the database handle, keep what the harness
 	// (the durable observer) logged
 	pre := append([]*Delivered{}, v.App.Delivered...)
@@ -722,6 +754,15 @@ func init() {
 					// events that the victim refuses are offered to it before the crash
 					c.P["refusals"] = 1
 				}
+				cs = append(cs, c)
+			}
+			// crash points inside the run of re-writes that one insertion makes
+			// (first descendants of the ancestors, one write per ancestor)
+			for i := 0; i < count/2; i++ {
+				c := CaseSpec{Kind: "crashpoint", P: map[string]int64{"n": int64(3 + i%3), "steps": 400, "after": int64(i % 2), "cont": 140}}
+				r := c
+				r.Seed, r.Index = seed, len(cs)
+				c.P["rwk"] = int64(1 + r.rng("rwk").Intn(25) + (i%8)*r.rng("rwk2").Intn(120))
 				cs = append(cs, c)
 			}
 			for i := 0; i < kills; i++ {
